@@ -40,8 +40,14 @@ long long off(const CScript& s, CScript::const_iterator it) {
 }
 }
 
-extern "C" size_t btcsim_probe(char* out, size_t cap) {
+// The probe is compiled once per field group (-DPROBE_GROUP=<name>); a group that no longer compiles because
+// a field was renamed or removed is left out on its own, the others keep working (see btcsim/build.py).
+#define PROBE_FN2(g) btcsim_probe_##g
+#define PROBE_FN(g) PROBE_FN2(g)
+
+extern "C" size_t PROBE_FN(PROBE_GROUP)(char* out, size_t cap) {
     Buf b{out, cap, 0};
+#if defined(PROBE_core)
     if (!env) { b.kv("env", "none"); return b.n; }
     b.kv("env", "ok");
     b.kvi("done", env->done);
@@ -57,29 +63,43 @@ extern "C" size_t btcsim_probe(char* out, size_t cap) {
     b.kv("script", hexv(env->script));
     b.kvi("pc", off(env->script, env->pc));
     b.kvi("pend", off(env->script, env->pend));
-    b.kvi("pbegincodehash", off(env->script, env->pbegincodehash));
+#elif defined(PROBE_counters)
+    if (!env) return 0;
     b.kvi("nOpCount", env->nOpCount);
     b.kvi("opcode_pos", env->opcode_pos);
+#elif defined(PROBE_codehash)
+    if (!env) return 0;
+    b.kvi("pbegincodehash", off(env->script, env->pbegincodehash));
+#elif defined(PROBE_execdata)
+    if (!env) return 0;
     b.kvi("codesep_pos", env->execdata.m_codeseparator_pos);
     b.kvi("weight_left_init", env->execdata.m_validation_weight_left_init);
     b.kvi("weight_left", env->execdata.m_validation_weight_left_init ? env->execdata.m_validation_weight_left : 0);
     b.kvi("tapleaf_init", env->execdata.m_tapleaf_hash_init);
     b.kv("tapleaf", env->execdata.m_tapleaf_hash_init ? env->execdata.m_tapleaf_hash.ToString() : "");
+#elif defined(PROBE_phases)
+    if (!env) return 0;
     b.kvi("is_p2sh", env->is_p2sh);
     b.kv("p2shstack", stackstr(env->p2shstack));
     b.kv("successor", hexv(env->successor_script));
     b.kvi("sigversion", (int)env->sigversion);
     b.kvi("flags", env->flags);
     b.kvi("serror", env->serror ? (int)*env->serror : -1);
+#elif defined(PROBE_hist)
+    if (!env) return 0;
     b.kvi("hist_stack", env->stack_history.size());
     b.kvi("hist_alt", env->altstack_history.size());
     b.kvi("hist_pc", env->pc_history.size());
     b.kvi("hist_nop", env->nOpCount_history.size());
+#elif defined(PROBE_tce)
+    if (!env) return 0;
     if (env->tce) {
         b.kvi("tce_i", env->tce->m_i);
         b.kvi("tce_len", env->tce->m_path_len);
         b.kv("tce_k", env->tce->m_k.ToString());
     } else b.kv("tce_i", "none");
+#elif defined(PROBE_next)
+    if (!env) return 0;
     // what executes next, read from the bytes at pc
     long long pco = off(env->script, env->pc);
     if (env->tce) b.kv("next", "commit");
@@ -100,5 +120,8 @@ extern "C" size_t btcsim_probe(char* out, size_t cap) {
     } else b.kv("next", "stale");
     b.kvi("last_opcode", (int)env->opcode);
     b.kv("last_push", hexv(env->vchPushValue));
+#else
+#error "PROBE_GROUP / PROBE_<group> not set"
+#endif
     return b.n;
 }
